@@ -177,6 +177,9 @@ def run(ctx):
     from props import glue
     glue.odd_os_states(ctx)
     glue.wcmatch_every_flag(ctx)
+    from props import clauses
+    clauses.rawchars_errors(ctx)
+    clauses.misc_clauses(ctx, 'C10')
     common.replay_witnesses(ctx, [])
     return ctx.finish(RULE)
 
